@@ -234,7 +234,16 @@ func storeRun(c string) string {
 			panic("store: bad op " + p[0])
 		}
 	}
-	return d0 + " ## " + strings.Join(res, ",") + " ## " + storeDump(db)
+	d1 := storeDump(db)
+	// "a store verification finds nothing to repair": verification in repair mode must leave every stored hash as it is
+	// (the dump before it is the one that is judged, so that a repair cannot hide a wrong hash)
+	v := "verify=same"
+	if err := db.VerifVerifyHashes(true); err != nil {
+		v = "verify=error"
+	} else if storeDump(db) != d1 {
+		v = "verify=changed"
+	}
+	return d0 + " ## " + strings.Join(res, ",") + " ## " + d1 + " ## " + v
 }
 
 var _ = math.NaN
